@@ -330,6 +330,10 @@ func rewriteFile(p *packages.Package, f *ast.File) (bool, []byte, error) {
 	if r.needSim {
 		changed = true
 		astutil.AddNamedImport(r.fset, f, "simrt", "kverif/sim")
+		// a rewrite may have removed the file's last use of package time
+		if !astutil.UsesImport(f, "time") {
+			astutil.DeleteImport(r.fset, f, "time")
+		}
 	}
 	if !changed {
 		return false, nil, nil
